@@ -19,7 +19,26 @@ def main():
         chk.unit(FILE, fn, filters.REAL, 'math', 'real', check_arith=False)
     for fn in ('c14_box_sym', 'c14_sphere_sym'):
         chk.unit('verif:shims/c14_client.c', fn, dict(filters.REAL, filterBox={'inline': True}, filterSphere={'inline': True}), 'math', 'real', abspath=SHIM, check_arith=False)
-    chk.out_of_reach += ['sweep-and-prune broad phase, BVH mid phase (mj_collideTree), ordering of contacts (sorting is C22)',
+    # the per-pair filter of the narrow phase and its bounding-sphere test (math ints, reals), their callees under contract
+    P = filters.pair_contracts()
+    chk.unit('src/engine/engine_util_blas.c', 'mju_sub3', filters.BLAS3, 'math', 'real', check_arith=False)
+    chk.unit('src/engine/engine_util_blas.c', 'mju_dot3', filters.BLAS3, 'math', 'real', check_arith=False)
+    chk.unit(FILE, 'mj_filterSphere', P, 'math', 'real', check_arith=False)
+    chk.unit(FILE, 'filterCollisionPair', P, 'math', 'real', check_arith=False)
+    from contracts import prims
+    for fn in ('getMargin', 'getGap'):
+        chk.unit(FILE, fn, prims.MARGIN_CONTRACTS, 'math', 'real', check_arith=False)
+    # the order of the contact list: the macro text of engine_sort.h (merge, insertion, sift-down), instantiated by the shim of C22
+    from contracts import sort
+    SORT_SHIM = os.path.join(VERIF, 'shims', 'c22_sort.c')
+    for fn in ('vf_insertion', 'vf_merge', 'vf_sift'):
+        chk.unit('verif:shims/c22_sort.c', fn, sort.CONTRACTS, 'math', 'opaque', abspath=SORT_SHIM)
+    from props import C22
+    C22.bounded(chk)        # bounded stand-in for the pass / block composition of mjSORT (same macro text; never counted as proved)
+    chk.out_of_reach += ['sweep-and-prune broad phase, BVH mid phase (mj_collideTree), the pass/block composition of mjSORT (bounded stand-in in C22)',
                          'completeness of the whole pair enumeration (every unfiltered pair within margin is reported)']
+    chk.assumptions |= {'mjcb_contactfilter (user callback, global function pointer): no effect on verified state, arbitrary answer; the mask clauses are stated for the default (no callback installed)',
+                        'mj_assignMargin is a pure function of its argument (named AM); geom ids, pair ids and geom types in range (model invariants)',
+                        'symbolic & of two ints in mathematical-integer mode is the function band32, constrained by facts proved once in bit-vector arithmetic'}
     chk.assumptions.add('geometric filters proved over the reals (rounding of the sums is not modelled)')
     return chk.finish()
